@@ -17,16 +17,21 @@ VARIABLES c,          \* 0 = nothing built yet, else index into Configs
           steps, act
 vars == <<c, ss, steps, act>>
 
-ASSUME \A k \in 1..Len(Configs) : InDomain(Configs[k])
+(* TLC re-evaluates a constant that is overridden by a definition (Configs <-    *)
+(* MCConfigs) at every reference; constant-level definitions of this module are *)
+(* evaluated once, so everything below goes through these tables               *)
+CfgTab == TLCEval(Configs)
+SetTab == TLCEval(Sets)
+NCfg == Len(CfgTab)
+ASSUME \A k \in 1..NCfg : InDomain(CfgTab[k])
 
 (* views, streams and identities are resolved once per configuration (constant *)
 (* level definitions are evaluated once by TLC; TLCEval turns the lazily        *)
 (* evaluated function constructors into tables)                                *)
-Tabs == TLCEval([k \in 1..Len(Configs) |-> TLCEval(Table(Configs[k]))])
-FMaps == TLCEval([k \in 1..Len(Configs) |->
-                    TLCEval([i \in 1..Len(Configs[k].insts) |-> TLCEval(Feeds(Configs[k], Tabs[k], i))])])
-Lims == TLCEval([k \in 1..Len(Configs) |-> Configs[k].limit])
-Cfg == Configs[c]
+Tabs == TLCEval([k \in 1..NCfg |-> TLCEval(Table(CfgTab[k]))])
+FMaps == TLCEval([k \in 1..NCfg |->
+                    TLCEval([i \in 1..Len(CfgTab[k].insts) |-> TLCEval(Feeds(CfgTab[k], Tabs[k], i))])])
+Cfg == CfgTab[c]
 Tab == Tabs[c]
 ValsOf(kind) == IF kind \in {"updown", "oupdown"} THEN {-1, 2} ELSE {1, 2}
 
@@ -36,10 +41,10 @@ Setup(k) == /\ c = 0
             /\ c' = k
             /\ ss' = [t \in 1..Len(Tabs[k]) |-> NewAgg]
             /\ steps' = 0
-            /\ act' = [op |-> "S", cfg |-> Configs[k]]
+            /\ act' = [op |-> "S", cfg |-> CfgTab[k]]
 
 Measure(i, a, v) == /\ steps < MaxSteps
-                    /\ ss' = ApplyF(Lims[c], Tab, FMaps[c][i], ss, a, v)
+                    /\ ss' = ApplyF(Cfg.limit, Tab, FMaps[c][i], ss, a, v)
                     /\ steps' = steps + 1
                     /\ act' = [op |-> "M", i |-> i, attrs |-> a, v |-> v]
                     /\ UNCHANGED c
@@ -50,13 +55,13 @@ Collect == /\ steps < MaxSteps
            /\ act' = [op |-> "C"]
            /\ UNCHANGED c
 
-Next == \/ \E k \in 1..Len(Configs) : Setup(k)
-        \/ (c # 0 /\ \E i \in 1..Len(Cfg.insts), a \in Sets : \E v \in ValsOf(Cfg.insts[i].kind) : Measure(i, a, v))
+Next == \/ \E k \in 1..NCfg : Setup(k)
+        \/ (c # 0 /\ \E i \in 1..Len(Cfg.insts), a \in SetTab : \E v \in ValsOf(Cfg.insts[i].kind) : Measure(i, a, v))
         \/ (c # 0 /\ Collect)
 Spec == Init /\ [][Next]_vars
 
 View == <<c, ss>>
-Proj(k, s) == [c |-> k, ss |-> s, peek |-> IF k = 0 THEN {} ELSE Report(Configs[k], Tabs[k], s)]
+Proj(k, s) == [c |-> k, ss |-> s, peek |-> IF k = 0 THEN {} ELSE Report(CfgTab[k], Tabs[k], s)]
 EmitEdge == PrintT("EDGE " \o ToJson([from |-> Proj(c, ss), act |-> act', to |-> Proj(c', ss')]))
 
 -----------------------------------------------------------------------------
